@@ -50,6 +50,10 @@ class Purity:
         if any(self.mut_arg(b, a) for a in t["args"]):
             if name in ("deref_mut", "as_mut", "as_mut_ptr", "borrow_mut", "as_mut_slice", "index_mut", "get_mut", "get_unchecked_mut"):
                 return None         # lending a mutable view is not a write; a store through it is caught as a store
+            if name in ("is_null", "len", "is_empty", "capacity", "as_ptr", "cast", "cast_const", "cast_mut", "addr", "offset_from", "eq", "ne", "cmp", "partial_cmp",
+                        "lt", "le", "gt", "ge", "is_aligned", "deref", "as_ref", "borrow", "get", "first", "last", "contains", "starts_with", "ends_with", "iter",
+                        "read", "read_unaligned", "add", "sub", "offset", "wrapping_add", "wrapping_sub", "is_some", "is_none", "is_ok", "is_err"):
+                return None         # observers: they take the pointer / reference by value but do not write through it
             return "`%s` with a `&mut` / `*mut` argument" % path.rsplit("::", 2)[-1]
         return None
 
